@@ -766,8 +766,10 @@ func (x *lRun) exec(op lOp) (res TxResult, amt *big.Int) {
 					evs = append(evs, r3.Events...)
 				}
 			}
-			r2.Events = evs
-			return r2, amt
+			// the step is THREE transactions (create, execute, possibly cancel): the create succeeded and changed the stores, so the
+			// step as a whole is not "a failed transaction" even when the execute request failed (drivers that check the rollback
+			// of failed transactions judge single messages)
+			return TxResult{Events: evs}, amt
 		}
 		return w.Deliver(&perptypes.MsgOpen{Creator: u, Position: pos, Leverage: dec(op.Lev), TradingAsset: trade, Collateral: sdk.NewCoin(coll, v),
 			TakeProfitPrice: tpd, StopLossPrice: dec(sl), PoolId: x.oraclePool(q)}), amt
